@@ -15,7 +15,7 @@ use crate::world::query::*;
 use crate::world::schema::*;
 use serde_json::{json, Value};
 
-pub const POSITIONS: &[&str] = &["response_field", "alias", "alias_enum", "variable", "input_field", "one_of_member", "enum_value"];
+pub const POSITIONS: &[&str] = &["response_field", "alias", "alias_enum", "variable", "input_field", "one_of_member", "input_field_recursive", "one_of_member_recursive", "enum_value"];
 
 fn obj(name: &str, fields: Vec<FieldDef>) -> ObjectT {
     ObjectT { name: name.into(), fields, implements: vec![], ext_split: None, ext_impl_split: None, description: None }
@@ -96,6 +96,21 @@ pub fn point(word: &str, position: &str, rust: bool, delivery: Delivery) -> Opti
                 vectors.push(("variables".into(), String::new(), json!({"inp": { w.clone(): 3, "plainMember": "s" }}), Expectation::OkMember { key: "variables".into(), value: json!({"inp": { w.clone(): 3, "plainMember": "s" }}) }));
             }
         }
+        "input_field_recursive" | "one_of_member_recursive" => {
+            // the named member refers to its own input type: the generator boxes it, which is another code path
+            let one_of = position == "one_of_member_recursive";
+            schema.inputs.push(InputT { name: "In".into(), fields: vec![InputFieldDef { name: w.clone(), ty: TypeExpr::plain(Named::Input(0), false), default: None }, InputFieldDef { name: "plainMember".into(), ty: TypeExpr::plain(Named::String, false), default: None }], one_of });
+            schema.objects[1].fields[0].args.push(ArgDef { name: "arg".into(), ty: TypeExpr::plain(Named::Input(0), false) });
+            vars.push(VarDef { name: "inp".into(), ty: TypeExpr::plain(Named::Input(0), true), default: None });
+            sel.push(field("plain", None, vec![("arg".into(), ArgValue::Var("inp".into()))], vec![]));
+            if one_of {
+                let v = json!({"inp": { w.clone(): { w.clone(): {"plainMember": "s"} } }});
+                vectors.push(("variables".into(), String::new(), v.clone(), Expectation::OkMember { key: "variables".into(), value: v }));
+            } else {
+                let v = json!({"inp": { w.clone(): { w.clone(): null, "plainMember": "s" }, "plainMember": "t" }});
+                vectors.push(("variables".into(), String::new(), v.clone(), Expectation::OkMember { key: "variables".into(), value: v }));
+            }
+        }
         "enum_value" => {
             if matches!(word, "true" | "false" | "null") {
                 return None; // GraphQL itself forbids these enum values
@@ -134,7 +149,7 @@ pub fn point(word: &str, position: &str, rust: bool, delivery: Delivery) -> Opti
 fn finding_key(word: &str, position: &str, rust: bool) -> Option<&'static str> {
     match (word, position, rust) {
         ("self", "enum_value", true) | ("Self", "enum_value", true) => Some("enum-value-self-rust-normalization"),
-        ("Self", "one_of_member", _) => Some("one-of-member-Self"),
+        ("Self", "one_of_member", _) | ("Self", "one_of_member_recursive", _) => Some("one-of-member-Self"),
         _ => None,
     }
 }
@@ -156,7 +171,7 @@ fn classify_compile(item: &Item, _res: &CaseResult) -> Option<String> {
 }
 
 pub fn run(report: &mut Report, replay: Option<&Value>) {
-    report.rule = "exhaustive product of the strict + reserved Rust keywords of editions 2015-2021 (51 words; `true`/`false`/`null` skipped at enum values where GraphQL forbids them) x positions {response field, alias, variable, input-object field, @oneOf member, enum value} x normalization {none, rust}, one compiled program per point, plus case styles {camel, snake, Pascal, SCREAMING, leading underscore, digits} x positions; thorough adds random mixtures with 40 % keyword names. Oracle: the program compiles and the wire key / string seen through payload round trip, serialised variables and enum round trip is the exact GraphQL name. Every enumerated point is non-trivial; distinct by (word, position, normalization).".into();
+    report.rule = "exhaustive product of the strict + reserved Rust keywords of editions 2015-2021 (51 words; `true`/`false`/`null` skipped at enum values where GraphQL forbids them) x positions {response field, alias, alias of an enum-typed field, variable, input-object field, @oneOf member, the last two also as a self-referential (boxed) member, enum value} x normalization {none, rust}, one compiled program per point, plus case styles {camel, snake, Pascal, SCREAMING, leading underscore, digits} x positions; thorough adds random mixtures with 40 % keyword names. Oracle: the program compiles and the wire key / string seen through payload round trip, serialised variables and enum round trip is the exact GraphQL name. Every enumerated point is non-trivial; distinct by (word, position, normalization).".into();
     report.assumptions = vec!["rustc 1.95 (edition 2021 consumer crate) decides `compiles`".into()];
     if let Some(v) = replay {
         replay_e1(report, v);
@@ -190,7 +205,7 @@ pub fn run(report: &mut Report, replay: Option<&Value>) {
             if RUST_KEYWORDS.contains(&v.as_str()) {
                 continue;
             }
-            for p in ["response_field", "alias", "alias_enum", "variable", "input_field"] {
+            for p in ["response_field", "alias", "alias_enum", "variable", "input_field", "input_field_recursive"] {
                 k += 1;
                 if let Some(mut it) = point(&v, p, false, if k % 3 == 0 { Delivery::Derive } else { Delivery::Library }) {
                     it.base.features.set.insert("keyword_case_variant");
